@@ -420,6 +420,39 @@ type made struct {
 }
 type myKind uint16
 
+type (
+	nBool   bool
+	nInt8   int8
+	nString string
+	nPtr    *int8
+	nPtrPtr *nPtr
+	nArr    [2]nInt8
+	nSlice  []nBool
+	nMap    map[nString]nSlice
+	nStruct struct {
+		P nPtr
+		Q *nPtr
+		R []nPtr
+		M map[nInt8]nPtr
+		A [1]nPtrPtr
+	}
+	nScalars struct {
+		B  nBool
+		I  nInt8
+		U  nUintptr
+		F  nFloat32
+		G  nFloat64
+		S  nString
+		I6 nInt64
+		U6 nUint64
+	}
+	nUintptr uintptr
+	nFloat32 float32
+	nFloat64 float64
+	nInt64   int64
+	nUint64  uint64
+)
+
 func CollectionProgs() []Prog {
 	id := rapid.ID[int]
 	ps := []Prog{
@@ -755,6 +788,30 @@ func CombinatorProgs() []Prog {
 		one("Make[map[int8]*bool]", "comb rej", rapid.Make[map[int8]*bool], nil),
 		one("Make[[0]int]", "comb", rapid.Make[[0]int], nil),
 		one("Make[struct{}]", "comb", rapid.Make[struct{}], nil),
+		// Make for named (defined) types of every kind, at top level and nested: the value has the requested type
+		one("Make[nPtr]", "comb", rapid.Make[nPtr], nil),
+		one("Make[nPtrPtr]", "comb", rapid.Make[nPtrPtr], nil),
+		one("Make[*nPtr]", "comb", rapid.Make[*nPtr], nil),
+		one("Make[[]nPtr]", "comb", rapid.Make[[]nPtr], nil),
+		one("Make[nStruct]", "comb rej", rapid.Make[nStruct], nil),
+		one("Make[nMap]", "comb rej", rapid.Make[nMap], nil),
+		one("Make[nArr]", "comb", rapid.Make[nArr], nil),
+		one("Make[nSlice]", "comb", rapid.Make[nSlice], nil),
+		one("Make[nScalars]", "comb wide", rapid.Make[nScalars], func(v nScalars) string {
+			if v.F != v.F || v.G != v.G {
+				return "NaN field"
+			}
+			if !utf8.ValidString(string(v.S)) {
+				return "invalid UTF-8 in string field"
+			}
+			return ""
+		}),
+		one("Make[nPtr-as-any]", "comb", func() *rapid.Generator[any] { return rapid.Make[nPtr]().AsAny() }, func(v any) string {
+			if _, ok := v.(nPtr); !ok {
+				return fmt.Sprintf("dynamic type %T, want nPtr", v)
+			}
+			return ""
+		}),
 		one("Make[any-typed]", "comb", func() *rapid.Generator[any] { return rapid.Make[myKind]().AsAny() }, func(v any) string {
 			if _, ok := v.(myKind); !ok {
 				return fmt.Sprintf("dynamic type %T, want myKind", v)
